@@ -25,11 +25,15 @@ func zzC19_bls(op int) {
 	msg := nondetBytes(2)
 	msg2 := nondetBytes(2)
 	msg0 := append([]byte{}, msg...)
-	sig1, err := sk1.Sign(msg, h)
+	// the signatures and the PoP are produced with the twin key objects and a twin hasher, so that the objects
+	// handed to the operation under test are fresh: a lazily filled cache inside a key or hasher would be
+	// written by the first concurrent use
+	ht := testHasher("c19-tag")
+	sig1, err := sk1r.Sign(msg, ht)
 	verifAssume(err == nil)
-	sig2, _ := sk2.Sign(msg, h)
-	sig2b, _ := sk2.Sign(msg2, h)
-	pop1, _ := BLSGeneratePOP(sk1)
+	sig2, _ := sk2r.Sign(msg, ht)
+	sig2b, _ := sk2r.Sign(msg2, ht)
+	pop1, _ := BLSGeneratePOP(sk1r)
 	agg, _ := AggregateBLSSignatures([]Signature{sig1, sig2})
 	aggb, _ := AggregateBLSSignatures([]Signature{sig1, sig2b})
 	sig10 := append([]byte{}, sig1...)
@@ -47,40 +51,40 @@ func zzC19_bls(op int) {
 			assertEqBytes(s, sig10, "concurrent Sign returns the sequential signature")
 		}
 	case 1:
-		want, _ := pk1.Verify(sig1, msg, h)
+		want, _ := pk1r.Verify(sig1, msg, ht)
 		verifAssert(want, "Verify accepts the signature (sequential)")
 		f = func() {
 			ok, err := pk1.Verify(sig1, msg, h)
 			verifAssert(bAnd(ok == want, err == nil), "concurrent Verify returns the sequential verdict")
 		}
 	case 2:
-		want, _ := BLSVerifyPOP(pk1, pop1)
+		want, _ := BLSVerifyPOP(pk1r, pop1)
 		verifAssert(want, "BLSVerifyPOP accepts the PoP (sequential)")
 		f = func() {
 			ok, err := BLSVerifyPOP(pk1, pop1)
 			verifAssert(bAnd(ok == want, err == nil), "concurrent BLSVerifyPOP returns the sequential verdict")
 		}
 	case 3:
-		want, _ := SPOCKVerify(pk1, sig1, pk2, sig2)
+		want, _ := SPOCKVerify(pk1r, sig1, pk2r, sig2)
 		verifAssert(want, "SPOCKVerify accepts (sequential)")
 		f = func() {
 			ok, err := SPOCKVerify(pk1, sig1, pk2, sig2)
 			verifAssert(bAnd(ok == want, err == nil), "concurrent SPOCKVerify returns the sequential verdict")
 		}
 	case 4:
-		want, _ := VerifyBLSSignatureOneMessage(pks, agg, msg, h)
+		want, _ := VerifyBLSSignatureOneMessage([]PublicKey{pk1r, pk2r}, agg, msg, ht)
 		f = func() {
 			ok, err := VerifyBLSSignatureOneMessage(pks, agg, msg, h)
 			verifAssert(bAnd(ok == want, err == nil), "concurrent VerifyBLSSignatureOneMessage returns the sequential verdict")
 		}
 	case 5:
-		want, _ := VerifyBLSSignatureManyMessages(pks, aggb, msgs, hs)
+		want, _ := VerifyBLSSignatureManyMessages([]PublicKey{pk1r, pk2r}, aggb, msgs, []hash.Hasher{ht, ht})
 		f = func() {
 			ok, err := VerifyBLSSignatureManyMessages(pks, aggb, msgs, hs)
 			verifAssert(bAnd(ok == want, err == nil), "concurrent VerifyBLSSignatureManyMessages returns the sequential verdict")
 		}
 	default:
-		want, _ := BatchVerifyBLSSignaturesOneMessage(pks, sigs, msg, h)
+		want, _ := BatchVerifyBLSSignaturesOneMessage([]PublicKey{pk1r, pk2r}, sigs, msg, ht)
 		f = func() {
 			res, err := BatchVerifyBLSSignaturesOneMessage(pks, sigs, msg, h)
 			verifAssert(err == nil, "batch verification succeeds")
@@ -91,10 +95,15 @@ func zzC19_bls(op int) {
 	verifParallel(2, f)
 	n := verifEffectsEnd()
 	verifAssert(n == 0, "the operation stores to nothing that existed before the call (keys, hasher, PoP hasher, messages, signatures, lists, globals)")
-	verifAssert(verifSameState(sk1, sk1r), "private key object unchanged")
-	verifAssert(verifSameState(pk1, pk1r), "public key object unchanged")
-	verifAssert(verifSameState(pk2, pk2r), "second public key object unchanged")
-	verifAssert(verifSameState(sk2, sk2r), "second private key object unchanged")
+	// natively: the objects used by the operation equal never-used copies (the twins above were used to
+	// prepare the inputs, so fresh copies are built for the comparison)
+	x1f, x2f := x1, x2
+	sk1f, sk2f := newPrKeyBLSBLS12381(&x1f), newPrKeyBLSBLS12381(&x2f)
+	pk1f, pk2f := sk1f.PublicKey(), sk2f.PublicKey()
+	verifAssert(verifSameState(sk1, sk1f), "private key object unchanged")
+	verifAssert(verifSameState(pk1, pk1f), "public key object unchanged")
+	verifAssert(verifSameState(pk2, pk2f), "second public key object unchanged")
+	verifAssert(verifSameState(sk2, sk2f), "second private key object unchanged")
 	verifAssert(verifSameState(h, hr), "shared KMAC hasher unchanged")
 	verifAssert(verifSameState(popKMAC, popr), "package-level PoP hasher unchanged")
 	assertEqBytes(msg, msg0, "message unmodified")
